@@ -253,6 +253,16 @@ func init() {
 					seenN["url"+term] = true
 					out.Add("urls", Case{Coq: term, Tag: tag, Desc: map[string]interface{}{"object": what, "ocsp": c.OCSPServer, "issuers": c.IssuingCertificateURL, "cdp": c.CRLDistributionPoints}})
 				}
+				// eight more subject / validity bodies (Kernels/CaSubject.v)
+				if term, tag, ok := caSubjectCase(c); ok && !seenN["cas"+tag+fmt.Sprint(len(c.Subject.Country), c.Subject.Country, len(c.Subject.Names) == 0)] {
+					seenN["cas"+tag+fmt.Sprint(len(c.Subject.Country), c.Subject.Country, len(c.Subject.Names) == 0)] = true
+					out.Add("casubj", Case{Coq: term, Tag: tag, Desc: map[string]interface{}{"object": what, "subject": c.Subject.String()}})
+				}
+				// five EV presence lints (Kernels/EvPresence.v)
+				if term, tag, ok := evCase(c); ok && !seenN["ev"+term] {
+					seenN["ev"+term] = true
+					out.Add("ev", Case{Coq: term, Tag: tag, Desc: map[string]interface{}{"object": what, "subject": c.Subject.String()}})
+				}
 				// the twenty-three subject-attribute presence lints (Kernels/SubjPresence.v)
 				if term, tag, ok := presenceCase(c); ok && !seenN["pres"+term] {
 					seenN["pres"+term] = true
@@ -274,6 +284,11 @@ func init() {
 			for _, v := range derValues(rng) {
 				term, tag := derCase(v)
 				out.Add("der", Case{Coq: term, Tag: tag, Desc: map[string]interface{}{"value": hexs(v)}})
+			}
+			for i, c := range caSubjectProbes() {
+				if term, tag, ok := caSubjectCase(c); ok {
+					out.Add("casubj", Case{Coq: term, Tag: tag, Desc: map[string]interface{}{"object": fmt.Sprintf("subject / validity probe %d", i)}})
+				}
 			}
 			for i, der := range urlCerts(rng) {
 				if c, err := safeParseCert(der); err == nil {
